@@ -55,13 +55,15 @@ def record_case(draw):
             alts.append(a)
     n_alt = len(alts)
     zero_bias = draw(st.integers(0, 3)) == 0
+    big = draw(st.integers(0, 5)) == 0  # counts beyond single precision (2**24)
+    ints = st.sampled_from(["16777216", "16777217", "16777218", "20000000", "20000001", "3"]) if big else st.integers(0, 12).map(str)
     def val():
         return "0" if zero_bias and draw(st.booleans()) else draw(st.sampled_from(VALUES))
     fields = {
         "FR": [val() for _ in range(n_alt + 1)],
         "FA": [val() for _ in range(n_alt)],
-        "IR": [str(draw(st.integers(0, 12))) for _ in range(n_alt + 1)],
-        "IA": [str(draw(st.integers(0, 12))) for _ in range(n_alt)],
+        "IR": [draw(ints) for _ in range(n_alt + 1)],
+        "IA": [draw(ints) for _ in range(n_alt)],
     }
     if draw(st.integers(0, 7)) == 0:
         fields["FR"] = ["0"] * (n_alt + 1)
@@ -71,7 +73,7 @@ def record_case(draw):
     if use_filter:
         field = draw(st.sampled_from(["FR", "FA", "IR", "IA"]))
         op = draw(st.sampled_from(sorted(OPS)))
-        pool = fields[field] if fields[field] and draw(st.integers(0, 3)) > 0 else (VALUES if field[0] == "F" else [str(i) for i in range(13)])
+        pool = fields[field] if fields[field] and draw(st.integers(0, 3)) > 0 else (VALUES if field[0] == "F" else [str(i) for i in range(13)] + ["16777216", "16777217", "20000000"])
         v = draw(st.sampled_from(pool))
         spelling = draw(st.sampled_from(["plain", "plain", "nolead", "trail"]))
         if spelling == "nolead" and v.startswith("0."):
@@ -395,12 +397,30 @@ def check_cli(ctx, case):
     return problems
 
 
+@st.composite
+def sequence_case(draw):
+    """Several records converted one after another in the same process (state must not leak between records)."""
+    return {"kind": "sequence", "records": [draw(record_case()) for _ in range(draw(st.integers(2, 4)))]}
+
+
+def check_sequence(ctx, case):
+    problems = []
+    for i, rec in enumerate(case["records"]):
+        sub = check_record(ctx, rec)
+        if sub:
+            p = sub[0]
+            problems.append(Problem("sequence:" + p.signature, "record %d of a sequence of %d converted in one process: %s" % (i + 1, len(case["records"]), p.message)))
+            break
+    return problems
+
+
 def replay(ctx, case):
-    return {"record": check_record, "invalid": check_invalid, "cli": check_cli}[case["kind"]](ctx, case)
+    return {"record": check_record, "invalid": check_invalid, "cli": check_cli, "sequence": check_sequence}[case["kind"]](ctx, case)
 
 
 def run(ctx):
     q = ctx.quick
     ctx.hyp("records", record_case(), check_record, 1500 if q else 10000)
+    ctx.hyp("sequence", sequence_case(), check_sequence, 300 if q else 2000)
     ctx.hyp("invalid", invalid_case(), check_invalid, 100 if q else 400)
-    ctx.hyp("cli", cli_case(), check_cli, 30 if q else 120)
+    ctx.hyp("cli", cli_case(), check_cli, 45 if q else 150)
